@@ -145,11 +145,26 @@ def calls_C04(g, mb):
         c.append("call BASE2B %d %s 0" % (bid, G.point(g)))
         c.append("call B2B %d %s 0" % (bid, G.point(g)))
         c.append("call ORI %d 0" % bid)
+    c += stale_probe(g, mb, lambda b: ["call BASE2B %d %s 0" % (b, G.point(g)), "call B2B %d %s 0" % (b, G.point(g)),
+                                       "call ORI %d 0" % b])
     return c
 
 
 def gen_C04(seed, tier):
     return gen_generic("c04", seed, tier, 66, 400, calls_C04)
+
+
+def stale_probe(g, mb, queries):
+    """a NEW state, then one routine that recomputes the position-level kinematics for it
+    (UpdateKinematics, ForwardDynamics, InverseDynamics — not only UpdateKinematicsCustom), then
+    flag-cleared queries: whatever a query caches per body must follow every one of these routines
+    (found with seeded C05e: a per-fixed-body cache refreshed by UpdateKinematicsCustom alone)"""
+    c = mb.state_lines()
+    c.append("call %s" % g.r.choice(["UK", "UK", "FD", "ID"]))
+    ids = all_ids(mb, g, 1) + list(mb.fixed_ids)[:2]
+    for bid in ids:
+        c += queries(bid)
+    return c
 
 
 def calls_C05(g, mb):
@@ -163,6 +178,8 @@ def calls_C05(g, mb):
     c.append("call PJ6 %d %s 1 g %d" % (bid, G.point(g), g.r.randint(1, 999)))
     c.append("call UKC 1")
     c.append("call BSJ %d 0 z" % bid)
+    c += stale_probe(g, mb, lambda b: ["call BSJ %d 0 z" % b, "call PJ %d %s 0 z" % (b, G.point(g)),
+                                       "call PJ6 %d %s 0 z" % (b, G.point(g))])
     return c
 
 
